@@ -1,0 +1,132 @@
+//go:build verif
+// +build verif
+
+// Machine-checked contracts for this package (checked by /verif/govc).
+// Comment-only: no executable code.
+
+package validation
+
+//@ import atypes "github.com/ovrclk/akash/types"
+//@ import manifest "github.com/ovrclk/akash/manifest"
+//@ import dtypes "github.com/ovrclk/akash/x/deployment/types"
+
+// ---- C10: cross-validation of a manifest group against the on-chain group ----------------------------------
+// Two resource records are of the same kind when their CPU, memory and storage are Equal (generated protobuf
+// equality of the pointed-to units: an equivalence relation).  The units are never written while a manifest is
+// validated (every write of the verified functions is checked against their frames), so during validation Equal is a
+// fixed equivalence on the unit pointers; it is modelled by abstract keys of the pointers (A-EQ).
+//@ spec cpuK(p: *atypes.CPU): int
+//@ spec memK(p: *atypes.Memory): int
+//@ spec stoK(p: *atypes.Storage): int
+//@ extern atypes.(*CPU).Equal(this, that)
+//@   pure
+//@   requires typeis(that, *atypes.CPU)
+//@   ensures result <==> cpuK(this) == cpuK(unbox(that, *atypes.CPU))
+//@ extern atypes.(*Memory).Equal(this, that)
+//@   pure
+//@   requires typeis(that, *atypes.Memory)
+//@   ensures result <==> memK(this) == memK(unbox(that, *atypes.Memory))
+//@ extern atypes.(*Storage).Equal(this, that)
+//@   pure
+//@   requires typeis(that, *atypes.Storage)
+//@   ensures result <==> stoK(this) == stoK(unbox(that, *atypes.Storage))
+
+// total replica count of the records of kind (c, m, s) among the first n records of a list
+//@ spec sumKind(list: []atypes.Resources, n: int, c: int, m: int, s: int): int =
+//@     ite(n <= 0, 0, sumKind(list, n - 1, c, m, s) + ite(cpuK(list[n-1].Resources.CPU) == c && memK(list[n-1].Resources.Memory) == m && stoK(list[n-1].Resources.Storage) == s, list[n-1].Count, 0))
+//@ lemma sumKindNonneg(list: []atypes.Resources, n: int, c: int, m: int, s: int)
+//@   induction n
+//@   requires forall i: int :: 0 <= i && i < n ==> list[i].Count >= 0
+//@   ensures sumKind(list, n, c, m, s) >= 0
+//@   trigger sumKind(list, n, c, m, s)
+
+// the on-chain group as a resource list (interface methods of types.ResourceGroup, read-only)
+//@ spec rgResources(g: iface): []atypes.Resources
+//@ spec rgName(g: iface): str
+//@ extern atypes.(ResourceGroup).GetResources(recv)
+//@   pure
+//@   ensures result == rgResources(recv)
+//@ extern atypes.(ResourceGroup).GetName(recv)
+//@   pure
+//@   ensures result == rgName(recv)
+
+//@ spec kindOf(pc: *atypes.CPU, pm: *atypes.Memory, ps: *atypes.Storage, c: int, m: int, s: int): bool = cpuK(pc) == c && memK(pm) == m && stoK(ps) == s
+// one unfolding step, as an explicit rewrite
+//@ lemma sumKindStep(list: []atypes.Resources, k: int, c: int, m: int, s: int)
+//@   requires k >= 0
+//@   ensures sumKind(list, k + 1, c, m, s) == sumKind(list, k, c, m, s) + ite(kindOf(list[k].Resources.CPU, list[k].Resources.Memory, list[k].Resources.Storage, c, m, s), list[k].Count, 0)
+//@   trigger sumKind(list, k + 1, c, m, s)
+// totals depend only on the kinds and counts of the records
+//@ lemma sumKindSame(list: []atypes.Resources, n: int, c: int, m: int, s: int)
+//@   induction n
+//@   requires forall i: int :: 0 <= i && i < n ==> kindOf(list[i].Resources.CPU, list[i].Resources.Memory, list[i].Resources.Storage, c, m, s) == old(kindOf(list[i].Resources.CPU, list[i].Resources.Memory, list[i].Resources.Storage, c, m, s)) && list[i].Count == old(list[i].Count)
+//@   ensures sumKind(list, n, c, m, s) == old(sumKind(list, n, c, m, s))
+//@   trigger sumKind(list, n, c, m, s), old(sumKind(list, n, c, m, s))
+// the contribution of the records from position k on depends only on those records
+//@ lemma sumKindSuffix(list: []atypes.Resources, n: int, k: int, c: int, m: int, s: int)
+//@   induction n
+//@   requires 0 <= k && k <= n
+//@   requires forall i: int :: k <= i && i < n ==> kindOf(list[i].Resources.CPU, list[i].Resources.Memory, list[i].Resources.Storage, c, m, s) == old(kindOf(list[i].Resources.CPU, list[i].Resources.Memory, list[i].Resources.Storage, c, m, s)) && list[i].Count == old(list[i].Count)
+//@   ensures sumKind(list, n, c, m, s) - sumKind(list, k, c, m, s) == old(sumKind(list, n, c, m, s)) - old(sumKind(list, k, c, m, s))
+//@   trigger sumKind(list, n, c, m, s), old(sumKind(list, n, c, m, s)), sumKind(list, k, c, m, s)
+// changing the count of one record changes the total of its kind by the difference and no other total
+//@ lemma sumKindUpd(list: []atypes.Resources, n: int, c: int, m: int, s: int, idx: int)
+//@   requires 0 <= idx && idx < n
+//@   requires forall i: int :: 0 <= i && i < n ==> kindOf(list[i].Resources.CPU, list[i].Resources.Memory, list[i].Resources.Storage, c, m, s) == old(kindOf(list[i].Resources.CPU, list[i].Resources.Memory, list[i].Resources.Storage, c, m, s))
+//@   requires forall i: int :: 0 <= i && i < n && i != idx ==> list[i].Count == old(list[i].Count)
+//@   ensures sumKind(list, idx, c, m, s) == old(sumKind(list, idx, c, m, s))
+//@   ensures sumKind(list, idx + 1, c, m, s) == old(sumKind(list, idx + 1, c, m, s)) + ite(kindOf(list[idx].Resources.CPU, list[idx].Resources.Memory, list[idx].Resources.Storage, c, m, s), list[idx].Count - old(list[idx].Count), 0)
+//@   ensures sumKind(list, n, c, m, s) == old(sumKind(list, n, c, m, s)) + ite(kindOf(list[idx].Resources.CPU, list[idx].Resources.Memory, list[idx].Resources.Storage, c, m, s), list[idx].Count - old(list[idx].Count), 0)
+//@   trigger sumKind(list, n, c, m, s), old(sumKind(list, n, c, m, s)), old(list[idx].Count)
+// a list whose records of a kind are all exhausted has total zero for that kind; a total bounds every record of the kind
+//@ lemma sumKindZero(list: []atypes.Resources, n: int, c: int, m: int, s: int)
+//@   induction n
+//@   requires forall i: int :: 0 <= i && i < n && kindOf(list[i].Resources.CPU, list[i].Resources.Memory, list[i].Resources.Storage, c, m, s) ==> list[i].Count == 0
+//@   ensures sumKind(list, n, c, m, s) == 0
+//@   trigger sumKind(list, n, c, m, s)
+//@ lemma sumKindBound(list: []atypes.Resources, n: int, c: int, m: int, s: int, idx: int)
+//@   induction n
+//@   requires 0 <= idx && idx < n && kindOf(list[idx].Resources.CPU, list[idx].Resources.Memory, list[idx].Resources.Storage, c, m, s) && (forall i: int :: 0 <= i && i < n ==> list[i].Count >= 0)
+//@   ensures sumKind(list, n, c, m, s) >= list[idx].Count
+//@   trigger sumKind(list, n, c, m, s), list[idx].Count
+// totals grow with the prefix
+//@ lemma sumKindMono(list: []atypes.Resources, n: int, k: int, c: int, m: int, s: int)
+//@   induction k
+//@   requires 0 <= n && n <= k && (forall i: int :: 0 <= i && i < k ==> list[i].Count >= 0)
+//@   ensures sumKind(list, n, c, m, s) <= sumKind(list, k, c, m, s)
+//@   trigger sumKind(list, n, c, m, s), sumKind(list, k, c, m, s)
+
+// the same totals over a manifest group's services
+//@ spec sumSvc(svcs: []manifest.Service, n: int, c: int, m: int, s: int): int =
+//@     ite(n <= 0, 0, sumSvc(svcs, n - 1, c, m, s) + ite(kindOf(svcs[n-1].Resources.CPU, svcs[n-1].Resources.Memory, svcs[n-1].Resources.Storage, c, m, s), svcs[n-1].Count, 0))
+//@ lemma sumKindOfSvc(list: []atypes.Resources, svcs: []manifest.Service, n: int, c: int, m: int, s: int)
+//@   induction n
+//@   requires forall i: int :: 0 <= i && i < n ==> list[i].Resources == svcs[i].Resources && list[i].Count == svcs[i].Count
+//@   ensures sumKind(list, n, c, m, s) == sumSvc(svcs, n, c, m, s)
+//@   trigger sumKind(list, n, c, m, s), sumSvc(svcs, n, c, m, s)
+
+// Cross-validation accepts a manifest group only if, for every kind of compute unit, the replicas of the
+// group's services add up to exactly the replicas the on-chain group orders of that kind.
+//@ func validateManifestDeploymentGroup
+//@   uses sumKindNonneg, sumKindStep, sumKindSame, sumKindSuffix, sumKindZero, sumKindBound, sumKindMono, sumKindOfSvc
+//@   requires !fresh(rgResources(dgroup))
+//@   ensures [resources] result == nil ==> (forall c: int, m: int, s: int {sumKind(rgResources(dgroup), len(rgResources(dgroup)), c, m, s)} ::
+//@        sumKind(rgResources(dgroup), len(rgResources(dgroup)), c, m, s) == old(sumSvc(mgroup.Services, len(mgroup.Services), c, m, s)))
+//@   loop 1 modifies mlist[**]
+//@   loop 1 invariant 0 <= iter && iter <= len(ranged) && ranged == rgResources(dgroup) && len(mlist) == len(mgroup.Services) && fresh(mlist) && mlist == atloop(mlist)
+//@   loop 1 invariant forall k: int :: 0 <= k && k < len(mlist) ==> mlist[k].Count >= 0 && mlist[k].Resources == atloop(mlist[k].Resources)
+//@   loop 1 invariant forall c: int, m: int, s: int {atloop(sumKind(mlist, len(mlist), c, m, s))} ::
+//@        sumKind(mlist, len(mlist), c, m, s) + sumKind(ranged, iter, c, m, s) == atloop(sumKind(mlist, len(mlist), c, m, s))
+//@   loop 2 invariant 0 <= iter
+//@   loop 3 modifies mlist[**]
+//@   loop 3 invariant 0 <= iter && iter <= len(mlist) && mlist == atloop(mlist) && fresh(mlist)
+//@   loop 3 invariant forall k: int :: 0 <= k && k < len(mlist) ==> mlist[k].Count >= 0 && mlist[k].Resources == atloop(mlist[k].Resources)
+//@   loop 3 invariant drec.Resources == atloop(drec.Resources) && 0 <= drec.Count && drec.Count <= atloop(drec.Count)
+//@   loop 3 invariant forall k: int :: iter <= k && k < len(mlist) ==> mlist[k].Count == atloopheap(mlist[k].Count)
+//@   loop 3 invariant forall c: int, m: int, s: int {atloopheap(sumKind(mlist, iter, c, m, s))} ::
+//@        sumKind(mlist, iter, c, m, s) + ite(kindOf(drec.Resources.CPU, drec.Resources.Memory, drec.Resources.Storage, c, m, s), atloop(drec.Count) - drec.Count, 0) == atloopheap(sumKind(mlist, iter, c, m, s))
+//@   loop 4 invariant 0 <= iter && iter <= len(mlist) && (forall k: int :: 0 <= k && k < iter ==> mlist[k].Count == 0)
+//@   loop 5 invariant 0 <= iter
+//@   loop 6 invariant 0 <= iter
+
+//@ property C10 := validateManifestDeploymentGroup#*, lemma:sumKindOfSvc, lemma:sumKindNonneg, lemma:sumKindStep, lemma:sumKindSame, lemma:sumKindSuffix, lemma:sumKindUpd, lemma:sumKindZero, lemma:sumKindBound, lemma:sumKindMono
